@@ -146,7 +146,7 @@ def cli_job(item):
         c = ex.call('compile', [Ptr(Cell(rstr(expr)))])
         if c.variant != 'Ok': return fail('expression does not compile')
         if cfg.get('ast'):
-            want = list(MM.fmt_debug(ex, ex.call('Expression::as_ast', [Ptr(Cell(c.fields[0].v))]))) + ['\n']
+            want = list(MM.fmt_debug(ex, ex.call('Expression::as_ast', [Ptr(Cell(c.fields[0].v))]), True)) + ['\n']          # {:#?}
             ex.u_want = ('ok', want)
             if any(r in ('J', 'stdin') for r in reads): return '--ast reads the input'
             if code != 0: return f'--ast: exit status {code}'
@@ -185,10 +185,7 @@ def cli_job(item):
         if (S['paths'] + SEED) % 7 == 0:
             a = run_jp(req, 'dev')
             good = (a['code'] == ex.u_code or (a['code'] != 0 and ex.u_code != 0)) and (bool(a['stderr']) == any(e[0] == 'stderr' for e in ex.u_events))
-            if req['ast'] and ex.u_want[0] == 'ok':          # the model renders {:#?} on one line: the bytes are compared natively (binary vs library)
-                lib = XP.worker_native().request({'op': 'cli_oracle', 'expr': req['expr'], 'json': req['json'], 'unquoted': req['unquoted'], 'ast': True})
-                good = good and native_verdict(req, a, lib) is None
-            else: good = good and a['stdout'] == text_of(ex.u_out)
+            good = good and a['stdout'] == text_of(ex.u_out)
             if good: S['replayed'] += 1
             else: S['mismatches'].append({'harness': 'jp', 'req': req, 'engine': {'code': ex.u_code, 'stdout': text_of(ex.u_out)}, 'native': a})
             S.sample({'harness': 'jp', **{k: req[k] for k in ('expr', 'json', 'expr_src', 'json_src', 'ast', 'unquoted', 'faults')}, 'exit': a['code'], 'stdout': a['stdout'][:80]}, cap=2)
